@@ -7,6 +7,7 @@ import PsVerif.Model.Gram
 import PsVerif.Model.NormCalc
 import PsVerif.Model.Proto
 import PsVerif.Model.Sspor
+import PsVerif.Model.Recon
 open PsVerif PsVerif.Proto
 
 def showVerdicts (vs : List StepVerdict) : String :=
@@ -26,6 +27,11 @@ def showSsporObs (st : Sspor) (e : Option Err) : String :=
   let sq := match st.predictSquare with | some true => "sq" | some false => "rect" | none => "-"
   s!"{status}|{showOptNat st.nSensors}|{sel}|{rk}|{bm}|{sq}|{showOptNat st.basis.nModes}|{showOptNat st.nBasisModes}"
 
+def showMat (M : RMat) : String :=
+  let n := M.nrows
+  let m := M.ncols
+  s!"{n} {m} " ++ " ".intercalate ((M.toList.map fun r => r.toList.map showRat).flatten)
+
 def handle : P String := do
   let cmd ← tok
   match cmd with
@@ -41,6 +47,16 @@ def handle : P String := do
         let (st', e) := acc.1.step op
         (st', showSsporObs st' e :: acc.2)) (st0, [])
       pure ("ok " ++ " ; ".intercalate outs.reverse)
+  | "predict" => do
+    let B ← mat; let sensors ← listOf nat; let Y ← mat
+    match predictExact B sensors Y with
+    | some R => pure s!"ok {showMat R}"
+    | none => pure "none"
+  | "det" => do
+    let B ← mat; let sensors ← listOf nat
+    match determinantModel B sensors with
+    | some d => pure s!"ok {showRat d}"
+    | none => pure "none"
   | "tailshuffle" => do
     let m ← nat; let pre ← listOf nat; let tail ← listOf nat
     pure s!"ok {showNats (tailShuffle (fun _ => tail) m pre)}"
